@@ -359,6 +359,9 @@ func (s *Sim) held(w *waiter) bool {
 func (s *Sim) gated(w *waiter) bool { return w.gid != 0 && s.gatedG[w.gid] }
 
 // curGID parses the current goroutine's id out of its stack header.
+// GID returns the calling goroutine's id (for harness stubs that behave differently for one task).
+func GID() uint64 { return curGID() }
+
 func curGID() uint64 {
 	var buf [64]byte
 	b := buf[:runtime.Stack(buf[:], false)]
@@ -416,6 +419,20 @@ func (s *Sim) GatedPos() (site string, key uint64, ok bool) {
 		}
 	}
 	return "", 0, false
+}
+
+// GatedSites lists where the gated tasks are parked right now (sorted).
+func (s *Sim) GatedSites() []string {
+	s.mu.Lock()
+	defer s.mu.Unlock()
+	var out []string
+	for _, w := range s.parked {
+		if !w.frozen && s.gated(w) {
+			out = append(out, w.site)
+		}
+	}
+	sort.Strings(out)
+	return out
 }
 
 // FreeRun executes f with every scheduling point switched off (code runs on the Go scheduler).
